@@ -21,7 +21,7 @@ import (
 // DirEntry is one entry of a generated directory.
 type DirEntry struct {
 	Name  string   `json:"name"`
-	Kind  string   `json:"kind"` // annotated | plain | unexpected | broken | nongo | subdir
+	Kind  string   `json:"kind"` // annotated | plain | unexpected | broken | nongo | nongo-valid | subdir
 	Src   *SrcFile `json:"src,omitempty"`
 	Text  string   `json:"text,omitempty"`
 	TextB []byte   `json:"textb,omitempty"`
@@ -31,6 +31,7 @@ type DirEntry struct {
 type DirCase struct {
 	Entries []DirEntry `json:"entries"`
 	Mode    string     `json:"mode"` // cli-d | cli-p | cli-f-each | lib-each
+	Pattern string     `json:"pattern,omitempty"` // cli-p: glob relative to the directory ("" = *.go)
 }
 
 func (e *DirEntry) content() (string, []Span) {
@@ -81,7 +82,7 @@ func genDirCase(t *rapid.T) *DirCase {
 	n := rapid.IntRange(1, ev.Pick(10, 12)).Draw(t, "nEntries")
 	used := map[string]bool{}
 	for i := 0; i < n; i++ {
-		kind := rapid.SampledFrom([]string{"annotated", "annotated", "annotated", "plain", "unexpected", "unexpected", "broken", "broken", "nongo", "subdir"}).Draw(t, "entryKind")
+		kind := rapid.SampledFrom([]string{"annotated", "annotated", "annotated", "plain", "unexpected", "unexpected", "broken", "broken", "nongo", "subdir", "nongo-valid"}).Draw(t, "entryKind")
 		prefix := rapid.SampledFrom([]string{"a", "m", "z", "0", "B"}).Draw(t, "sortPrefix") // bad files sort before, between and after good ones
 		name := fmt.Sprintf("%s%d_%s", prefix, i, kind)
 		e := DirEntry{Kind: kind}
@@ -114,6 +115,10 @@ func genDirCase(t *rapid.T) *DirCase {
 		case "nongo":
 			e.Name = name + rapid.SampledFrom([]string{".txt", ".proto", ".go.bak", ".gox", "", ".GO"}).Draw(t, "ext")
 			e.Text = "message Man {\n  string name = 1; // 姓名 @tag valid:\"required,to=1~3\"\n}\ntype X struct {\n\tA int `json:\"a\"` // @tag valid:\"x\"\n}\n"
+		case "nongo-valid":
+			// a perfectly valid annotated Go source under a name that does not end in .go
+			e.Name = name + rapid.SampledFrom([]string{".pb.go.bak", ".pb.tmpl", ".pb.go~", ".go.orig", "", ".pb.GO"}).Draw(t, "ext")
+			e.Src = genSrcFile(t, "x.pb.go", 1)
 		case "subdir":
 			e.Name = name + rapid.SampledFrom([]string{"", ".go"}).Draw(t, "dirExt")
 			e.Src = genSrcFile(t, "inner.pb.go", 1)
@@ -129,6 +134,9 @@ func genDirCase(t *rapid.T) *DirCase {
 		modes = []string{"cli-d", "cli-d", "cli-p", "cli-f-each", "lib-each"}
 	}
 	c.Mode = rapid.SampledFrom(modes).Draw(t, "mode")
+	if c.Mode == "cli-p" {
+		c.Pattern = rapid.SampledFrom([]string{"", "", "*", "*.pb.*", "[a-m]*", "*_annotated*", "*.go*", "?*_*"}).Draw(t, "pattern")
+	}
 	return c
 }
 
@@ -168,7 +176,7 @@ func checkDir(c *DirCase) (msg string, badBeforeGood bool) {
 				continue
 			}
 			txt, _ := e.content()
-			bad := e.Kind == "broken" || e.Kind == "nongo" || e.Kind == "subdir" || e.Kind == "unexpected" || !isValidGo(txt)
+			bad := e.Kind == "broken" || e.Kind == "nongo" || e.Kind == "nongo-valid" || e.Kind == "subdir" || e.Kind == "unexpected" || !isValidGo(txt)
 			if bad && firstBad == "" {
 				firstBad = n
 			}
@@ -183,7 +191,11 @@ func checkDir(c *DirCase) (msg string, badBeforeGood bool) {
 			return err.Error(), badBeforeGood
 		}
 	case "cli-p":
-		if _, err := runInjector("cli-p", dir, ""); err != nil {
+		mode, pat := "cli-p", ""
+		if c.Pattern != "" {
+			mode, pat = "cli-p-glob", c.Pattern
+		}
+		if _, err := runInjector(mode, dir, pat); err != nil {
 			return err.Error(), badBeforeGood
 		}
 	default:
@@ -217,6 +229,10 @@ func checkDir(c *DirCase) (msg string, badBeforeGood bool) {
 			if out != f.text {
 				return fmt.Sprintf("non-.go file %s was modified: %s", f.e.Name, firstDiff(f.text, out)), badBeforeGood
 			}
+		case c.Mode == "cli-p" && c.Pattern != "" && !globMatch(c.Pattern, f.e.Name):
+			if out != f.text {
+				return fmt.Sprintf("file %s does not match the pattern %q but was modified: %s", f.e.Name, c.Pattern, firstDiff(f.text, out)), badBeforeGood
+			}
 		case !isValidGo(f.text):
 			if out != f.text {
 				return fmt.Sprintf("file %s does not parse but was modified: %s", f.e.Name, firstDiff(f.text, out)), badBeforeGood
@@ -235,11 +251,19 @@ func checkDir(c *DirCase) (msg string, badBeforeGood bool) {
 	return "", badBeforeGood
 }
 
+func globMatch(pattern, name string) bool {
+	ok, err := filepath.Match(pattern, name)
+	return err == nil && ok
+}
+
 func TestC19(t *testing.T) {
 	rapid.Check(t, func(t *rapid.T) {
 		c := genDirCase(t)
 		msg, nt := checkDir(c)
 		ev.Class("mode=" + c.Mode)
+		if c.Pattern != "" {
+			ev.Class("glob=" + c.Pattern)
+		}
 		for _, e := range c.Entries {
 			ev.Class("entry=" + e.Kind)
 		}
